@@ -1291,10 +1291,12 @@ class ProcessPoolExecutor(Executor):
             self._pending_work_items[self._queue_count] = w
             self._work_ids.put(self._queue_count)
             self._queue_count += 1
-            # Wake up queue management thread
-            self._executor_manager_thread_wakeup.wakeup()
 
             self._ensure_executor_running()
+            # Wake up queue management thread. This is done once the workers
+            # are (re)started, so that the thread also watches the sentinels
+            # of the workers that were just spawned.
+            self._executor_manager_thread_wakeup.wakeup()
             return f
 
     submit.__doc__ = Executor.submit.__doc__
